@@ -62,10 +62,11 @@ Lemma elem_ok_ext chunk np np' pos cnt e pos' cnt' :
   (forall n, n < cnt' -> np' n = np n) ->
   elem_ok chunk np pos cnt e pos' cnt' -> elem_ok chunk np' pos cnt e pos' cnt'.
 Proof.
-  intros E H. destruct H.
-  - apply elem_sym; try assumption. intros j Hj. rewrite E by lia. apply H3. exact Hj.
+  intros E H.
+  destruct H as [syms Hn0 HM Hpn Hsy Hnu | syms len off HM Hsy Hnu Hlen Ho1 Ho2 Hnc Hsrc Hpl Heq].
+  - apply elem_sym; try assumption. intros j Hj. rewrite E by lia. apply Hnu. exact Hj.
   - apply elem_ref; try assumption.
-    + intros j Hj. rewrite E by lia. apply H1. exact Hj.
+    + intros j Hj. rewrite E by lia. apply Hnu. exact Hj.
     + rewrite E by lia. assumption.
     + rewrite E by lia. assumption.
     + rewrite E by lia. assumption.
